@@ -113,6 +113,55 @@ def c03_framing(want_hex):
 
 
 # ------------------------------------------------------------------------------------------------ O2 reply path
+def o2_recv_error(chk, prog, text_len):
+    """An ErrorResponse is relayed like any other message -- also on a connection with a statement cache, where the pooler LOOKS INTO it, and also
+    when its text is not UTF-8 (a server with another client_encoding and localised messages)."""
+    name = 'O2-recv-error-text%d' % text_len
+    ob = chk.begin(name, 'Server::recv on a connection WITH a prepared-statement cache (the pooler parses ErrorResponses there) receiving ErrorResponse(S "ERROR", '
+                   'C "22012", M <%d symbolic bytes: ASCII or bytes that are never valid UTF-8>) then ReadyForQuery: Ok, and the bytes handed to the client are '
+                   'exactly the two messages' % text_len, {'message_text_bytes': text_len, 'statement_cache': True})
+    recv = fn(prog, 'Server::recv')
+    ip = chk.interp(prog, name)
+    install_stats_noops(ip)
+    ip.lossy_invalid = True
+
+    def harness(ip_):
+        text = []
+        for i in range(text_len):
+            b = ip_.fresh(8, 'txt%d' % i)
+            ip_.assume(z3.And(b.v != 0, z3.Or(z3.ULT(b.v, 128), b.v == 0xC0, b.v == 0xC1, z3.UGE(b.v, 0xF5))))
+            text.append(b)
+        body = [BV(8, x) for x in b'SERROR\0C22012\0M'] + text + [BV(8, 0), BV(8, 0)]
+        msgs = [Msg(BV(8, ord('E')), body), Msg(BV(8, ord('Z')), [BV(8, ord('I'))])]
+        stream = [b for m in msgs for b in m.bytes]
+        st = StreamV(list(stream), 'server')
+        srv, pre, prebuf = mk_symbolic_server(ip_, prog, st, 0, concrete_flags={})
+        setf(prog, srv, 'Server', 'prepared_statement_cache', some(ip_, lru([], 4)))
+        try:
+            r = ip_.drive(ip_.call_function(recv, [Ptr(Cell(srv, 'server')), none(ip_)]))
+        except Panic as p:
+            r = None
+        ob.nontrivial += 1
+        okk = r is not None and variant(ip_, r, 'Result') == 'Ok'
+        bad = None
+        if not okk:
+            bad = 'Server::recv fails (%s) on an ErrorResponse the server sent: the client gets a pooler-made error instead of the server\'s message and ReadyForQuery' % ('panic' if r is None else 'Err')
+        else:
+            out = items(ip_, payload(r, 'Ok')[0])
+            if len(out) != len(stream) or ip_.model_for(z3.Not(z3.And(*[a.z() == b.z() for a, b in zip(out, stream)]))) is not None:
+                bad = 'the bytes handed to the client differ from the ErrorResponse + ReadyForQuery the server sent'
+        if bad:
+            m = ip_.model_for()
+            hx = bytes(m.eval(b.z(), True).as_long() for b in stream).hex()
+            chk.report(ob, 'C03/O2/error-response-not-relayed', bad, {'stream_hex': hx},
+                       {'commands': [{'op': 'server_script', 'pre': {}, 'cache': 4, 'inbound_hex': hx, 'steps': [{'do': 'recv'}]}], 'expect': ['srv_expect', {'steps': [{'err': False, 'hex': hx}]}]})
+        if len(ob.samples) < 2:
+            ob.samples.append({'ok': okk})
+    ip.explore(harness)
+    chk.absorb(ob, ip)
+    chk.end(ob)
+
+
 def o2_recv(chk, prog, shape, buffer_len, loop, cflags=None):
     name = 'O2-recv%s-%s-buf%d' % ('-loop' if loop else '', '_'.join(map(str, shape)), buffer_len)
     ob = chk.begin(name, 'Server::recv%s on a reply stream of %d messages (body lengths %r; codes and bodies symbolic), %d bytes already '
@@ -337,6 +386,8 @@ def main(chk):
         for delta in (-1, 0, 1):
             tasks.append((o2_recv, (prog, (bl, 1), FLUSH_LIMIT - (5 + bl) + delta, True, {'data_available': False})))
     tasks.append((o2_recv, (prog, (8, 1), 0, True, {'in_transaction': True})))
+    for n in (1, 3) + ((6,) if chk.thorough else ()):
+        tasks.append((o2_recv_error, (prog, n)))
     if T:
         tasks.append((o2_recv, (prog, (1, 1, 1, 1), 0, True, {})))
         tasks.append((o2_recv, (prog, (4, 4, 1), FLUSH_LIMIT - 9, True, {})))
